@@ -103,6 +103,10 @@ impl<'a, 'tcx> H<'a, 'tcx> {
     fn lit(&self, l: &LitKind) -> J {
         match l {
             LitKind::Str(s, _) => J::s(s.to_string()),
+            LitKind::ByteStr(b, _) => J::obj().with(
+                "bytes",
+                J::s(b.as_byte_str().iter().map(|c| if (0x20..0x7f).contains(c) { *c as char } else { '\u{1}' }).collect::<String>()),
+            ),
             LitKind::Int(n, _) => J::obj().with("int", J::s(format!("{}", n.get()))),
             LitKind::Bool(b) => J::Bool(*b),
             LitKind::Char(c) => J::obj().with("char", J::s(c.to_string())),
